@@ -636,7 +636,12 @@ pub fn run_check(prop: &str, tier: &str) -> i32 {
     let seed: i64 = std::env::var("VERIF_SEED").ok().and_then(|s| s.parse().ok()).unwrap_or(0);
     let kf = Known::load();
     let pool = Pool::new();
-    let (out, rule) = if prop == "C05" {
+    let (out, rule) = if prop == "C11" {
+        (
+            crate::damage::run(&pool, tier, &kf),
+            "seed directory images recorded from fixed engine workloads (see per_config); for every seed: every byte of the first 48 (thorough 96) bytes of every entry header x values {00, FF, b^01, b^80, b+1}, a payload bit flip and a zeroed header per entry, every (second, thorough: every) byte of both index files x the same values, every truncation length of the index files, leftover *.tmp copies, truncations of WAL files at and near unit boundaries, zeroed units and files, stray files (empty, garbage, WAL copy under another name, sub-directory, full-size garbage with a plausible header length); each mutant is opened by the real engine in a worker built with AddressSanitizer and probed with peeks, offset reads, drains and an append; states = mutants that caused no panic / abort / signal / sanitizer report / hang and returned only appended payloads".to_string(),
+        )
+    } else if prop == "C05" {
         (
             crate::schedx::run_c05(&pool, tier, &kf),
             "stateless exploration of thread schedules of the real engine under a cooperative scheduler: for every harness (3 pre-states x 12 two-thread menus + three-thread menus, see per_config) every schedule with at most the stated number of preemptions (switching away from a thread that could continue) at the cfg-guarded lock-free scheduling points and API-call boundaries is executed; states = schedules whose outcome satisfied the oracle, transitions = schedules executed; distinct outcomes = distinct (per-thread results, final drain) vectors".to_string(),
@@ -673,7 +678,7 @@ pub fn run_check(prop: &str, tier: &str) -> i32 {
         seed,
         wall,
         &out,
-        "model_checking",
+        if prop == "C11" { "fault_enumeration" } else { "model_checking" },
         &rule,
         &[
             "small geometry (2 KiB blocks, 4 blocks per file) stands for the real constants; engine code is parametric in them",
